@@ -12,9 +12,14 @@ from `Loaded`.  This file adds, in the same style (compositions of existing theo
 | strengthens | theorems | composed from |
 |---|---|---|
 | C08 | `git_load_iff`, **`loaded_of_git`**, `loaded_of_git_to_txns`, `git_eq_fs_text`, `git_accept_balanced`, `git_balance_exact`, `git_register_exact`, `git_checksum_determines_set` | `C08.load_is_parse`, `C08.meta_commit_is_loaded`, `C08.git_eq_fs`, `Lemmas/E2Eb.parseAll_text`, `loaded_of_files`, `loaded_*` |
-| C12 | **`text_strict_iff`**, `text_strict_iff_of_lax`, **`text_lax_chart_free`** | `C12.strict_iff_config`, `C12.lax_chart_free_config` |
+| C12 | **`text_strict_iff`**, `text_strict_iff_of_lax`, `files_strict_iff`, **`text_lax_chart_free`** | `C12.strict_iff_config`, `C12.lax_chart_free_config`, `AcceptOrder.loadFiles_eq` |
 | C05 | **`text_filter_partition`** (`loaded_`, `files_`), `text_filter_balance_exact`, `text_filter_register_exact`, `text_filter_checksum_determines_set` | `C05.partition`, `filter_mem`, `filter_order`, `sel_filter`, `loaded_*` |
 | C07 | **`text_priced_balance`** (`loaded_`, `files_`), `text_priced_register` (`loaded_`) | `C07b.balance_conv_own_sum`, `balance_conv_rows`, `applied_rateAt`, `register_conv_running_total`, `register_conv_last_total` with `loaded_postsWF_sel`, `loaded_txnsWF_sel` |
+| C10 | `text_wf`, **`text_equity_text`** (`loaded_`, `files_`), `text_equity_reloads` | `Lemmas/E2Eb`: `parseJournal_eqChars` (C06's `parseTxnPosting_print`, `parseTxnHeader_print`, `repeat1_list`, `repeatTill1_list`), `equityText_chars`, `export_wf`; `C06.parseJournal_rawLex`, `C06.accept_wf`, `C10.equity_reparse`, `loaded_equity` |
+
+No theorem here is `_partial`.  What stays explicit is content (see §5 for the equity text): the journal zone of the
+source load is a fixed offset of whole minutes (`C06.CfgOK`, as in C06), the equity account is a valid name, the
+metadata comment texts are single lines, the re-load is lax.
 -/
 set_option linter.unusedVariables false
 
@@ -200,6 +205,39 @@ theorem text_strict_iff_of_lax (cfg : Time.TsCfg) (audit pe : Bool) (accts : Lis
     rw [hlax] at h3
     cases h3
     rfl
+
+/-- a list of files that all parse loads like the concatenation of their parse trees -/
+theorem loadFiles_ok_iff (cfg : Time.TsCfg) (st : Settings) (files : List (List Char)) (rss : List (List RawTxn))
+    (hp : files.map (parseJournal cfg) = rss.map some) (ts : List Txn) :
+    (∃ s2, loadFiles cfg st files = .ok (ts, s2)) ↔
+      ∃ acc, ts = sortTxns acc ∧ ∃ s2, acceptJournal st rss.flatten = .ok (acc, s2) := by
+  rw [AcceptOrder.loadFiles_eq cfg files rss st hp, AcceptOrder.loadTrees_eq]
+  constructor
+  · rintro ⟨s2, h⟩
+    obtain ⟨⟨acc, s0⟩, ha, he⟩ := (Outcome.map_ok _ _ _).mp h
+    simp only [Prod.mk.injEq] at he
+    obtain ⟨rfl, rfl⟩ := he
+    exact ⟨acc, rfl, s0, ha⟩
+  · rintro ⟨acc, rfl, s2, ha⟩
+    exact ⟨s2, by rw [ha]; rfl⟩
+
+/-- **files_strict_iff**: `text_strict_iff` for `paths_to_txns` — a list of file texts that all parse (to `rss`) is
+    loaded by strict mode iff every account, commodity and tag the files use is declared and lax mode with the same
+    switches loads it, to the same transactions -/
+theorem files_strict_iff (cfg : Time.TsCfg) (audit pe : Bool) (accts : List Path) (comms tags : List String)
+    (files : List (List Char)) (rss : List (List RawTxn)) (hp : files.map (parseJournal cfg) = rss.map some)
+    (ts : List Txn) :
+    (∃ s2, loadFiles cfg (Settings.ofConfig true audit pe accts comms tags) files = .ok (ts, s2)) ↔
+      ((∀ a ∈ C12.usedAccounts rss.flatten, a ∈ accts) ∧ (∀ c ∈ C12.usedCommodities rss.flatten, c ≠ "" → c ∈ comms) ∧
+       (∀ t ∈ C12.usedTags rss.flatten, t ∈ tags)) ∧
+      ∃ s2', loadFiles cfg (Settings.ofConfig false audit pe accts comms tags) files = .ok (ts, s2') := by
+  rw [loadFiles_ok_iff cfg _ files rss hp ts, loadFiles_ok_iff cfg _ files rss hp ts]
+  constructor
+  · rintro ⟨acc, hts, h⟩
+    obtain ⟨hd, h'⟩ := (C12.strict_iff_config audit pe accts comms tags rss.flatten acc).mp h
+    exact ⟨hd, acc, hts, h'⟩
+  · rintro ⟨hd, acc, hts, h'⟩
+    exact ⟨acc, hts, (C12.strict_iff_config audit pe accts comms tags rss.flatten acc).mpr ⟨hd, h'⟩⟩
 
 /-- **C12 end to end — `text_lax_chart_free`.**  With strict mode off, the outcome of loading a text (loaded /
     rejected / outside the exact numeric domain) and the loaded transactions — hence every report, which is computed
@@ -741,6 +779,22 @@ example : ∃ s, equityText [eq1] = some s ∧
   text_equity_reloads utc C06.cfgOK_utc lax0 stAfter sample [t1, t2] sample_loads (ofConfig_lax [] [] []) [t1, t2]
     (sel_all _) stAfter eqSel ["Equity"] [] [eq1] sample_equity (by simp) acctLex_Equity (fun _ h => by cases h)
     utc chart ["EUR"] []
+
+def eqBad : EqTxn := ⟨⟨1704153600000000000, 0⟩, "Equity", [],
+  [⟨["a", "b"], ⟨false, 150, 2⟩, ""⟩, ⟨["f"], ⟨true, 35, 1⟩, ""⟩, ⟨["E q"], ⟨false, 200, 2⟩, ""⟩]⟩
+
+set_option maxRecDepth 40000 in
+/-- boundary: the hypothesis `AcctLex eqa` of `text_equity_text` cannot be dropped — lax mode does not validate the
+    configured equity account, the export prints it verbatim, and with a blank in it the text is not a journal -/
+example : equityText [eqBad] = some "2024-01-02T00:00:00+00:00 'Equity\n   a:b  1.50\n   f  -3.5\n   E q  2.00\n\n" ∧
+    parseJournal utc "2024-01-02T00:00:00+00:00 'Equity\n   a:b  1.50\n   f  -3.5\n   E q  2.00\n\n".toList = none := by
+  decide
+
+set_option maxRecDepth 40000 in
+/-- boundary: nor can "the metadata comment texts are single lines" — a comment text with a newline is printed
+    verbatim and the export is not a journal -/
+example : (equityText [{ eq1 with comments := ["x\ny"] }]).map (fun s => parseJournal utc s.toList) = some none := by
+  decide
 
 /-! ### price conversion on a loaded text: `a 2 USD`, `b` (implicit −2 USD), price file `USD → EUR` at 3 -/
 
